@@ -109,16 +109,11 @@ def step (s : St) (toks : List String) : IO (St × Bool) := do
     match o.toNat? with
     | none => IO.println "bad-op"; return (s, false)
     | some o => doOp s (.ins (o, s.next) s.next) true
-  | ["insf", o] =>                 -- insert while the allocator fails: a new key is not added (identity step), an equal key is replaced
+  | ["insf", o] =>                 -- insert while the allocator fails: the model's own step kind (`Op.insf`): a new key is
+                                   -- not added (identity), an equal key is replaced; the harness hands out an id either way
     match o.toNat? with
     | none => IO.println "bad-op"; return (s, false)
-    | some o =>
-      match s.t.step (.get (o, 0)), s.t.step .count with
-      | some (_, .got none), some (_, .num n) =>
-        IO.println s!"n={n} d=[]"
-        return ({ s with next := s.next + 1 }, false)
-      | some (_, .got (some _)), _ => doOp s (.ins (o, s.next) s.next) true
-      | _, _ => IO.println "fault"; return (s, true)
+    | some o => doOp s (.insf (o, s.next) s.next) true
   | ["insv", o] =>                 -- NULL value
     match o.toNat? with
     | none => IO.println "bad-op"; return (s, false)
